@@ -20,7 +20,7 @@ from simkit import procprog  # noqa: E402
 from simkit.world import repo_exception_sig, result  # noqa: E402
 
 PROPERTY = "C02"
-RUNS = {"quick": 20_000, "thorough": 2_000_000}
+RUNS = {"quick": 20_000, "thorough": 20_000_000}
 WALL = {"quick": 50, "thorough": 1500}
 BATCH = {"quick": 250, "thorough": 2000}
 RULE = (
